@@ -248,9 +248,10 @@ func (r *Request) SetFileReader(paramName, filename string, reader io.Reader) *R
 		}
 	}
 	r.SetFileUpload(FileUpload{
-		ParamName:    paramName,
-		FileName:     filename,
-		unreplayable: !seekable || osFile,
+		ParamName:     paramName,
+		FileName:      filename,
+		unreplayable:  !seekable || osFile,
+		selfRewinding: true,
 		GetFileContent: func() (io.ReadCloser, error) {
 			if used { // asked again (retry attempt): rewind if possible, never upload the drained reader
 				s, ok := reader.(io.Seeker)
